@@ -21,22 +21,32 @@ type vFailWriter struct {
 	buf    []byte
 	calls  int
 	failed bool
+	silent bool // a silent short write happened (no error was returned to the caller of Write)
 }
 
 var errVInjected = errors.New("injected write fault")
 
 func (w *vFailWriter) Write(p []byte) (int, error) {
 	w.calls++
-	if !w.failed && vBool(fmt.Sprint("wfault#", w.calls)) {
+	if !w.failed && !w.silent && vBool(fmt.Sprint("wfault#", w.calls)) {
 		w.failed = true
 		n := 0
-		switch vChoice(fmt.Sprint("wshort#", w.calls), 3) {
+		switch vChoice(fmt.Sprint("wshort#", w.calls), 4) {
 		case 1:
 			n = len(p) / 2
 		case 2:
 			if len(p) > 0 {
 				n = len(p) - 1
 			}
+		case 3:
+			// a silent short write: fewer bytes accepted and no error (a writer breaking the io.Writer contract). The
+			// buffered writer in front of the destination either turns it into io.ErrShortWrite (flush) or writes
+			// the remainder again (large direct write): the operation may succeed, but then the output is complete
+			n = len(p) / 2
+			w.buf = append(w.buf, p[:n]...)
+			w.failed = false
+			w.silent = true
+			return n, nil
 		}
 		w.buf = append(w.buf, p[:n]...)
 		return n, errVInjected
@@ -81,7 +91,25 @@ func vCompleteFileX(file []byte, sb *SegmentBase, sp *sSpec, ssp *sSynSpec, tag 
 // vFaultSegment: the segment written by the fault harnesses: the small one, a richer one (two fields, term
 // vectors with locations, stored values, doc values, three documents) or one with a synonym section.
 func vFaultSegment() (*SegmentBase, *sSpec, *sSynSpec) {
-	switch vChoice("seg", 3) {
+	switch vChoice("seg", 4) {
+	case 3:
+		// a body larger than the 4 KiB write buffer: one incompressible stored value of 6000 bytes
+		val := make([]byte, 6000)
+		x := uint32(99991)
+		for i := range val {
+			x = x*1103515245 + 12345
+			val[i] = byte(x >> 16)
+		}
+		docs := []index.Document{&vDoc{id: "d0", fields: []index.Field{vIDField("d0"),
+			vTextField("f", 1, []vTerm{{term: "a", freq: 1}}, index.IndexField|index.StoreField, val, nil, 't')}}}
+		sp := &sSpec{fields: []string{"_id", "f"}}
+		sp.docs = append(sp.docs, &sDocSpec{id: "d0", stored: []sStoredVal{{field: "f", typ: 't', val: val}}})
+		sp.fieldPost("_id").termPost("d0").hits = []sHit{{doc: 0, freq: 1, norm: 1}}
+		sp.fieldPost("f").termPost("a").hits = []sHit{{doc: 0, freq: 1, norm: 1}}
+		var z ZapPlugin
+		seg, _, err := z.newWithChunkMode(docs, DefaultChunkMode)
+		vAssert(err == nil, "build")
+		return seg.(*SegmentBase), sp, nil
 	case 1:
 		docs, sp := vGenBatchFixed(gCfg{prefix: "", idBase: "d", nDocs: 3, wide: -1, idDV: false,
 			fields: []gField{
@@ -112,6 +140,10 @@ func H17_writeTo() {
 		vAssert(err != nil, "fault-reported")
 		return
 	}
+	if w.silent && err != nil {
+		return // the silent short write was noticed (io.ErrShortWrite from the buffered writer)
+	}
+	// no fault, or a silent short write that the buffered writer made up for: success with complete output
 	vAssert(err == nil, "nofault-ok")
 	vAssert(int(n) == len(w.buf), "n")
 	vCompleteFileX(w.buf, sb, sp, ssp, "")
